@@ -404,6 +404,26 @@ func c02Judge(sc c02Scenario, facts c02Facts, rec c02Run, dir string) (string, s
 		}
 	}
 	offered := map[string]bool{}
+	if c02ContentAll {
+		for _, d := range rec.tgt.dels {
+			if !d.BodySeen {
+				continue
+			}
+			for _, m := range sc.Msgs {
+				if m.ID != d.MsgID {
+					continue
+				}
+				want := c02Build(m)
+				if string(d.Body) != string(want.Body) {
+					return "C10:crash:content-after-restart:body", fmt.Sprintf("after restart the target is handed message %s with body %q, submitted was %q (acknowledged before the stop: %v)", d.MsgID, d.Body, want.Body, facts.acked[d.MsgID])
+				}
+				if got, exp := d.Header.Get("Subject"), want.Header.Get("Subject"); got != exp || d.Header.Len() != want.Header.Len() {
+					return "C10:crash:content-after-restart:header", fmt.Sprintf("after restart the target is handed message %s with %d header fields, Subject %q (submitted: %d fields, Subject %q; acknowledged before the stop: %v)", d.MsgID, d.Header.Len(), got, want.Header.Len(), exp, facts.acked[d.MsgID])
+				}
+			}
+		}
+		return "", ""
+	}
 	for _, d := range rec.tgt.dels {
 		rs, known := rcptsOf[d.MsgID]
 		if !known {
@@ -478,8 +498,23 @@ func c02Describe(ops []vos.Op, c c02Case) string {
 	return s
 }
 
-func TestVerifC02(t *testing.T) {
-	r := vx.Start("C02", "crash")
+// c02ContentAll: the run belongs to C10 (part "crash"): only the content of what
+// recovery hands to the target is judged, for every message, acknowledged or not
+var c02ContentAll bool
+
+func TestVerifC02(t *testing.T) { c02Main(t, "C02") }
+
+// TestVerifC10Crash (C10, part "crash"): the same crash states, judged by C10's
+// clause "byte-for-byte the header and body it accepted ... after a restart": a
+// message that reaches the target after recovery carries exactly the submitted
+// content, also when the stop hit the middle of its acceptance.
+func TestVerifC10Crash(t *testing.T) {
+	c02ContentAll = true
+	c02Main(t, "C10")
+}
+
+func c02Main(t *testing.T, prop string) {
+	r := vx.Start(prop, "crash")
 	defer r.Finish()
 	scratch := os.Getenv("VERIF_SCRATCH")
 	if scratch == "" {
@@ -491,7 +526,11 @@ func TestVerifC02(t *testing.T) {
 	r.Rule("each scenario (8-9 hand-written ones: 1-3 messages, aborts, exhaustion; plus generated ones: one message, two recipients, atomic / per-recipient target, every single scripted fault of the first attempt incl. null-sender variants, every pair of first-attempt faults, every temporary fault followed by a second-attempt fault, and in the thorough tier two first-attempt faults followed by a second-attempt fault; 1-3 messages, 1-3 recipients, scripted temporary/permanent failures at recipient/body/status/commit stage, aborts, max_tries exhaustion) runs once on the real queue with every mutating file operation logged; for every crash point i (before each operation) the states prefix(i), torn(i,k) for k in {1, n/2, n-1} (thorough: also every 8th byte), unsynced(i) and unsynced(i, S) for every subset S of the files holding un-synced data are materialised and recovered by a fresh real queue (two recovery scripts: accept all / first attempt fails temporarily), recursively for every crash point inside the recovery run (depth 2); oracle: acknowledged mail delivered, reported or re-attempted; aborted mail never delivered; only stored recipients attempted; no re-send once a later attempt had begun; no panic, hang or .meta_broken. Non-trivial: distinct crash states whose spool content differs from the previous crash state of the same scenario")
 	r.Assume("a recipient of a null-sender message that failed terminally before the crash (derived from the completed attempts and the script) counts as reported: reports to the null sender are suppressed")
 	r.Assume("directory operations (create, rename, remove) are atomic, ordered and durable; file data is durable only after Sync in the 'unsynced' variant")
-	r.Assume("content of messages that were never acknowledged is not judged")
+	if c02ContentAll {
+		r.Rule("C10 part crash: the crash states of the C02 exploration (see that rule text below), judged only by: every message recovery hands to the target carries byte-for-byte the submitted header and body, whether or not its acceptance had completed before the stop")
+	} else {
+		r.Assume("content of messages that were never acknowledged is not judged (C10 part crash judges it)")
+	}
 	scs := c02Scenarios(vx.Thorough())
 	var replay *c02Case
 	if rp := r.Replay(); rp != nil {
